@@ -113,6 +113,43 @@ pub fn run(a: &Args) -> i32 {
                 rep.sample(json!({"rendering": name, "features": features, "query": qtext, "outcome": res.real.kind()}));
             }
         }
+        // a root operation type the schema does NOT designate, next to an ordinary object that happens to
+        // carry the default root name: every rendering must refuse an operation of that kind alike
+        if rng.chance(50) {
+            let kind: &'static str = *rng.pick(&["mutation", "subscription"]);
+            let default_name = if kind == "mutation" { "Mutation" } else { "Subscription" };
+            let mut s2 = schema.clone();
+            if s2.get(default_name).is_none() {
+                s2.types.push(AType::Object { name: default_name.into(), implements: vec![], fields: vec![AField { name: "plan".into(), ty: ATy::named("Int"), dep: None }], ext_fields: vec![] });
+            }
+            if matches!(s2.get(default_name), Some(AType::Object { .. })) {
+                if kind == "mutation" { s2.mutation = None } else { s2.subscription = None }
+                let mut d2 = doc.clone();
+                d2.ops.retain(|o| o.kind != kind);
+                d2.ops.push(AOp { kind, name: "ShadowedRootOp".into(), vars: vec![], sels: vec![ASel::Typename] });
+                d2.prune_unreachable();
+                let q2 = d2.render();
+                let mut outcomes: Vec<(&str, &'static str)> = Vec::new();
+                let rs2 = renderings(&s2);
+                for (name, is_json, text) in &rs2 {
+                    let res = ctx.run(text, *is_json, &q2, &opts);
+                    rep.case(Some(&format!("shadowed-root|{}|{}|{}", name, text, q2)));
+                    rep.count("rendering:undesignated-root-with-default-named-object");
+                    rep.count(&format!("outcome:{}", res.real.kind()));
+                    if !res.diffs.is_empty() {
+                        rep.disagree(json!({"rendering": name, "what": "undesignated root", "diffs": res.diffs.iter().take(5).collect::<Vec<_>>(), "schema": text, "query": q2}));
+                    } else {
+                        rep.traces_validated += 1;
+                    }
+                    outcomes.push((name, res.real.kind()));
+                }
+                if let Some((n, k)) = outcomes.iter().find(|(_, k)| *k != outcomes[0].1) {
+                    rep.fail(&format!("front-ends-differ:{}", n), json!({"what": format!("the schema designates no {} type but has an object named {}", kind, default_name),
+                        "reference_rendering": outcomes[0].0, "reference_outcome": outcomes[0].1, "rendering": n, "outcome": k,
+                        "schema_reference": rs2[0].2, "query": q2}));
+                }
+            }
+        }
         // type order permuted: SDL in one order, JSON in another
         let mut permuted = schema.clone();
         rng.shuffle(&mut permuted.types);
